@@ -910,3 +910,73 @@ func runFreePol(payload string) string {
 	s.Push(vals...)
 	return fmt.Sprintf("free=%s init=%s len=%d", rec, b01(s.IsInit()), s.Len())
 }
+
+// ---------------------------------------------------------------------------
+// stream `sealpol` (C13): "WHILE the no-nesting option is set, Push ... skips every [Stack]" - value by value. The stack's own
+// PushPolicy switches the option on ("seal") or off ("unseal") when it is offered that marker, in the middle of a batch: a Stack
+// offered after "seal" is skipped, one offered after "unseal" is stored, and CanNest says what the option says at the end.
+//
+//	<stack literal (no mutex)> | <values>      ->   L<len> [<elements>] N<CanNest>
+
+func init() {
+	streams["sealpol"] = &stream{gen: genSealPol, run: runSealPol}
+}
+
+func genSealPol(r *rand.Rand, id string, tier string) string {
+	c := Cfg{Kind: kinds(r)}
+	if r.Intn(3) == 0 {
+		c.Cap = 2 + r.Intn(5)
+	}
+	if r.Intn(3) == 0 {
+		c.Opt |= fNNest
+	}
+	st := V{T: 'K', Form: "n", Cfg: c}
+	if r.Intn(2) == 0 {
+		st.Xs = append(st.Xs, V{T: 'i', I: 1})
+	}
+	var vs []string
+	for i, n := 0, 1+r.Intn(7); i < n; i++ {
+		switch r.Intn(6) {
+		case 0:
+			vs = append(vs, V{T: 's', S: "seal"}.String())
+		case 1:
+			vs = append(vs, V{T: 's', S: "unseal"}.String())
+		case 2, 3:
+			vs = append(vs, V{T: 'K', Form: []string{"n", "a", "as", "p"}[r.Intn(4)], Cfg: Cfg{Kind: kinds(r)}, Xs: []V{{T: 'i', I: int64(i)}}}.String())
+		default:
+			vs = append(vs, V{T: 'i', I: int64(10 + i)}.String())
+		}
+	}
+	return st.String() + " | " + strings.Join(vs, " ")
+}
+
+func runSealPol(payload string) string {
+	parts := strings.SplitN(payload, " | ", 2)
+	v, _ := parseV(strings.Fields(parts[0]))
+	s := BuildStack(v)
+	s.SetPushPolicy(func(x ...any) error {
+		if len(x) > 0 {
+			switch x[0] {
+			case "seal":
+				s.SetNoNesting(true)
+			case "unseal":
+				s.SetNoNesting(false)
+			}
+		}
+		return nil
+	})
+	var vals []any
+	toks := strings.Fields(parts[1])
+	for len(toks) > 0 {
+		var x V
+		x, toks = parseV(toks)
+		vals = append(vals, Build(x))
+	}
+	s.Push(vals...)
+	var el []string
+	for i := 0; i < s.Len(); i++ {
+		e, _ := s.Index(i)
+		el = append(el, Short(e))
+	}
+	return fmt.Sprintf("L%d [%s] N%s", s.Len(), strings.Join(el, " "), b01(s.CanNest()))
+}
